@@ -1,6 +1,7 @@
 import DoltVerif.Model.JsonDoc
 import DoltVerif.Model.JsonDocIndexed
 import DoltVerif.Model.JsonDocMerge
+import DoltVerif.Lemmas.JsonDocRoundTrip
 /-!
 C17 — Stored JSON documents behave like in-memory JSON.  Property theorems.  Statements are about
 `Model/JsonDoc*.lean`, tied to the Go sources (dolt and the go-mysql-server module it builds against)
@@ -414,6 +415,25 @@ theorem arrayInsert_cell (xs : List JsonVal) (n : Nat) (v : JsonVal) (hn : n < x
   have hpi := parseIndex_nat_inrange n xs.length hn
   have hgt : ((xs.length : Int) > (n : Int)) := by omega
   simp [walk, hpi, hgt]
+
+/-! ## serialize / parse round trip -/
+
+/-- **round trip**: for every stored-form document (`wfV`: scalars are well-formed literals — a string
+literal whose body the string reader reads back, or a token without delimiters — and keys are such
+bodies) parsing the stored text gives the document back; with any continuation `r` that is empty or
+starts with a delimiter, `parseVal` stops exactly after the value. -/
+theorem parse_serialize (d : JsonVal) (h : wfV d) : parse (serialize d) = some d :=
+  JsonDoc.parse_serialize d h
+
+theorem parseVal_serialize (d : JsonVal) (h : wfV d) (f : Nat) (r : Bytes) (hf : sz d ≤ f) (hr : restOk r) :
+    parseVal f (serialize d ++ r) = some (d, r) := rtV d h f r hf hr
+
+/-- the hypothesis is satisfiable by ordinary documents: string bodies without raw `"` / `\` qualify -/
+theorem wf_plain_body (b : Bytes) (h : ∀ c ∈ b, c ≠ 0x22 ∧ c ≠ 0x5c) : bodyOk b := bodyOk_plain b h
+
+example : wfV (.obj [([0x61], .arr [.lit [0x31], .lit [0x22, 0x78, 0x22]])]) := by
+  refine ⟨bodyOk_plain _ (by decide), ⟨Or.inr ⟨0x31, [], rfl, by decide, by decide, by decide, by decide, by simp⟩,
+    Or.inl ⟨[0x78], rfl, bodyOk_plain _ (by decide)⟩, trivial⟩, trivial⟩
 
 /-- the refinement of DESIGN.md §6 — stored-text splice = structural edit, on canonical documents.
 **Not proved, and false of the code** at the points listed in design/C17.md (the harness replays a
